@@ -50,6 +50,7 @@ Nothing here calls pyxform to compute an expectation: the expectation is pyxform
 """
 from __future__ import annotations
 
+import ast
 import random
 import re
 import zlib
@@ -59,17 +60,18 @@ from bounded import corpus
 from bounded.corpus import WB, Case, Result
 
 USES_DEFAULT_CORPUS = True
-N_GENERATED = {"quick": 100, "thorough": 1200}
+N_GENERATED = {"quick": 50, "thorough": 1200}
 TIME_BUDGET_S = {"quick": 75, "thorough": 900}
 
-# per-case effort: single transformations (all sites when fewer), of which repeated through .xlsx, compositions
+# per-case effort: single transformations (all sites when fewer; at most `container` of them sheet-level, which
+# need a real workbook), how many are repeated through .xlsx, compositions (every `ccomp`-th may be sheet-level)
 EFFORT = {
-    "quick": {"default": {"singles": 6, "xlsx": 1, "comps": 3},
-              "half": {"singles": 40, "xlsx": 2, "comps": 6},
-              "full": {"singles": 400, "xlsx": 6, "comps": 16}},
-    "thorough": {"default": {"singles": 30, "xlsx": 3, "comps": 12},
-                 "half": {"singles": 200, "xlsx": 6, "comps": 30},
-                 "full": {"singles": 100000, "xlsx": 40, "comps": 80}},
+    "quick": {"default": {"singles": 6, "container": 0.34, "xlsx": 0.25, "comps": 3, "ccomp": 12},
+              "half": {"singles": 24, "container": 3, "xlsx": 2, "comps": 4, "ccomp": 4},
+              "full": {"singles": 150, "container": 12, "xlsx": 11, "comps": 10, "ccomp": 4}},
+    "thorough": {"default": {"singles": 30, "container": 6, "xlsx": 3, "comps": 12, "ccomp": 3},
+                 "half": {"singles": 200, "container": 30, "xlsx": 6, "comps": 30, "ccomp": 3},
+                 "full": {"singles": 100000, "container": 100000, "xlsx": 40, "comps": 80, "ccomp": 3}},
 }
 
 # ----------------------------------------------------------------------------- the catalogue
@@ -266,6 +268,7 @@ class State:
         self.container = False      # needs a real workbook container (sheet-level transformation)
         self.bag = False            # a permutation was applied: messages compared as bags of words
         self.subst = []             # (old, new) spellings a message may echo
+        self.added_cols = set()     # unknown columns added (a message may echo the whole row)
         self.classes = []
         self.descr = []
 
@@ -572,6 +575,7 @@ def _add_col(sid, name, at, fill):
         cid = s.next_col
         s.next_col += 1
         s.cols.insert(min(at, len(s.cols)), Col(cid, [name], []))
+        st.added_cols.add(name)
         for i, r in enumerate(s.rows):
             if r.cells and (fill == "all" or i % 2 == 0):
                 r.cells[cid] = f"remark {i}"
@@ -637,7 +641,7 @@ def type_alternatives(cell: str):
 def _retype(old_kw, new_kw):
     def f(cur):
         for new, o, n in type_alternatives(cur):
-            if (o, n) == (old_kw, new_kw):
+            if n == new_kw:     # whatever spelling of the family the cell holds by now
                 return new, (" ".join(cur.split()), " ".join(new.split()))
         return None
     return f
@@ -1048,6 +1052,26 @@ def _bag(msg: str):
     return tuple(sorted(re.findall(r"\w+|[^\w\s]", msg)))
 
 
+_ECHO = re.compile(r"\{.*\}", re.S)
+
+
+def _norm_echo(msg: str, st: "State") -> str:
+    """Some messages echo the offending row as a Python dict.  The echo is read as a dict: the order of its
+    entries (= column order) and cells of unknown columns added by the rewrite are not part of the message's
+    kind, subject or row."""
+    m = _ECHO.search(msg)
+    if not m:
+        return msg
+    try:
+        d = ast.literal_eval(m.group(0))
+    except (ValueError, SyntaxError, MemoryError, RecursionError):
+        return msg
+    if not isinstance(d, dict):
+        return msg
+    items = sorted((repr(k), repr(v)) for k, v in d.items() if k not in st.added_cols)
+    return msg[: m.start()] + "{" + ", ".join(f"{k}: {v}" for k, v in items) + "}" + msg[m.end():]
+
+
 def expected_messages(msg: str, maps: dict, st: State):
     """The texts the rewritten form may answer for the reference message `msg`."""
     m = SHEET_IN_MESSAGE.search(msg)
@@ -1064,7 +1088,10 @@ def expected_messages(msg: str, maps: dict, st: State):
 
 
 def compare_warnings(ref: list, got: list, maps: dict, st: State):
-    key = _bag if st.bag else (lambda s: s)
+    def key(w):
+        w = _norm_echo(w, st)
+        return _bag(w) if st.bag else w
+
     pool = [key(w) for w in got]
     missing = []
     for w in ref:
@@ -1114,6 +1141,7 @@ class Runner:
     def __init__(self, case: Case, wb: WB, ctx: dict):
         self.case, self.wb, self.ctx = case, wb, ctx
         self.refs = {}
+        self.use_md = True
         self.out = []
         self.seen = set()
 
@@ -1140,7 +1168,7 @@ class Runner:
         wb2 = book.render()
         sheet_names_changed = bool(set(st.classes) & {"sheet-case", "sheet-space"})
         if channels is None:
-            channels = ["xlsx", "md"] if st.container else ["dict"]
+            channels = (["xlsx", "md"] if self.use_md else ["xlsx"]) if st.container else ["dict"]
             if st.container and not sheet_names_changed:
                 channels.append("dict")
         elif channels == "all":
@@ -1245,40 +1273,58 @@ def check(case: Case, res: Result, ctx: dict) -> list[dict]:
     run = Runner(case, wb, ctx)
     if run.ref("dict") is None:
         return []
+    run.use_md = "c13-full" in case.tags or "c13-half" in case.tags or tier == "thorough"
     level = "full" if "c13-full" in case.tags else ("half" if "c13-half" in case.tags else "default")
     eff = EFFORT[tier][level]
     rich = tier == "thorough" and level != "default"       # every spelling variant of every site
     base_book = Book(wb)
     per_class = {c: enumerate_ops(base_book, c, rich, random.Random(rnd.random())) for c in CLASSES}
     per_class = {c: v for c, v in per_class.items() if v}
-    singles = [op for c in per_class for op in per_class[c]]
-    if len(singles) > eff["singles"]:
-        # keep every class represented: round-robin over the classes after a seeded shuffle
-        for v in per_class.values():
-            rnd.shuffle(v)
-        order = sorted(per_class)
+    for v in per_class.values():
+        rnd.shuffle(v)
+
+    def round_robin(classes, cap):
+        order = sorted(classes)
         rnd.shuffle(order)
-        singles, k = [], 0
-        while len(singles) < eff["singles"]:
+        out, k = [], 0
+        while len(out) < cap:
             row = [per_class[c][k] for c in order if k < len(per_class[c])]
             if not row:
                 break
-            singles += row
+            out += row
             k += 1
-        singles = singles[: eff["singles"]]
+        return out[:cap]
+
+    # every class stays represented when the sites are sampled
+    heavy = [c for c in per_class if c in CONTAINER_CLASSES]
+    light = [c for c in per_class if c not in CONTAINER_CLASSES]
+    n_heavy = int(eff["container"]) + (1 if rnd.random() < eff["container"] - int(eff["container"]) else 0)
+    n_heavy = min(n_heavy, sum(len(per_class[c]) for c in heavy))
+    singles = round_robin(light, max(0, eff["singles"] - n_heavy)) + round_robin(heavy, n_heavy)
     for op in singles:
         applied, st, fails, _ = run.run([op])
         run.report(applied, st, fails)
     # some of the dict-expressible single transformations through a real workbook as well
-    dictable = [op for op in singles if op.cls not in CONTAINER_CLASSES and not op.cls.startswith("extra-sheet")]
-    for op in rnd.sample(dictable, min(len(dictable), eff["xlsx"])):
+    # (round-robin over the classes: the readers have their own header / cell / blank-row handling)
+    dictable = {}
+    for op in singles:
+        if op.cls not in CONTAINER_CLASSES:
+            dictable.setdefault(op.cls.split(":")[0], []).append(op)
+    n_x = int(eff["xlsx"]) + (1 if rnd.random() < eff["xlsx"] - int(eff["xlsx"]) else 0)
+    order = sorted(dictable, key=lambda c: (c not in ("blank-rows", "col-space", "ws", "col-case"), rnd.random()))
+    picked, k = [], 0
+    while len(picked) < n_x and any(k < len(v) for v in dictable.values()):
+        picked += [dictable[c][k] for c in order if k < len(dictable[c])]
+        k += 1
+    for op in picked[:n_x]:
         applied, st, fails, _ = run.run([op], ["xlsx"])
         run.report(applied, st, fails)
     # random compositions: every step is chosen among the sites of the *current* (already rewritten) form
     for k in range(eff["comps"]):
         book, st = Book(wb), State()
         ops = []
-        allowed = sorted(CLASSES) if k % 3 == 0 else sorted(set(CLASSES) - CONTAINER_CLASSES)
+        sheet_level = (k + rnd.randrange(eff["ccomp"])) % eff["ccomp"] == 0
+        allowed = sorted(CLASSES) if sheet_level else sorted(set(CLASSES) - CONTAINER_CLASSES)
         for _ in range(rnd.randint(2, 6)):
             cls = rnd.choice(allowed)
             cand = enumerate_ops(book, cls, True, random.Random(rnd.random()))
@@ -1289,7 +1335,7 @@ def check(case: Case, res: Result, ctx: dict) -> list[dict]:
                 ops.append(op)
         if len(ops) < 2:
             continue
-        channels = ["xlsx"] if (not st.container and k % 8 == 1) else None
+        channels = ["xlsx"] if (not st.container and rnd.random() < 0.08) else None
         applied, st2, fails, _ = run.run(ops, channels)
         run.report(applied, st2, fails)
     return run.out
@@ -1470,7 +1516,7 @@ def cases(tier: str, seed: int) -> list[Case]:
     for name, wb in {**family(), **_tiny_forms()}.items():
         out.append(Case(f"C13-{name}", wb=wb, origin="C13-family", tags={"c13-full"}))
     # generated forms of the shared grammar, every one with the exhaustive single-site treatment (capped in quick)
-    n = 25 if tier == "quick" else 300
+    n = 20 if tier == "quick" else 300
     for c in corpus.generated(seed + 1313, n, "mixed"):
         out.append(Case("C13-half-" + c.name, wb=c.wb, origin="C13-generated", tags={"c13-half"}))
     for c in corpus.generated(seed + 1314, n // 2, "lang"):
